@@ -142,7 +142,7 @@ fn main() {
             seq_wide: 2,
             extra_level: false,
             two_cut_limit: 96,
-            three_cuts: false,
+            three_cut_limit: 0,
             corrupt_seq: 2,
             trunc_seq: 2,
             recover_seq_narrow: 3,
@@ -156,11 +156,11 @@ fn main() {
             seq_wide: 2,
             extra_level: true,
             two_cut_limit: 192,
-            three_cuts: true,
+            three_cut_limit: 56,
             corrupt_seq: 2,
             trunc_seq: 3,
             recover_seq_narrow: 3,
-            recover_seq_wide: 3,
+            recover_seq_wide: 2,
             threads,
             cap_s: 1500.0,
         },
@@ -197,7 +197,7 @@ fn main() {
     b["cuts"] = json!(format!(
         "0, every 1-cut, every 2-cut for streams <= {} bytes{}, byte-by-byte",
         p.two_cut_limit,
-        if p.three_cuts { format!(", every 3-cut for streams <= {} bytes", p.two_cut_limit / 2) } else { String::new() }
+        if p.three_cut_limit > 0 { format!(", every 3-cut for streams <= {} bytes", p.three_cut_limit) } else { String::new() }
     ));
     b["streams_with_all_2cuts"] = json!(acc.frag.stats.two_cut_streams);
     leg(
